@@ -22,7 +22,7 @@ func runC13(w *World) *Result {
 	r.NotDecided = "resource exhaustion on pathological sizes (the un-memoised closure over the call graph is exponential on diamond-shaped call chains); panics inside the standard library; termination of the lexer's scanning loops (their progress argument is path-sensitive: a probe that matches the empty string would need execution to exclude). The index rule is a reviewed obligation list: a new unguarded index is reported even if a human could argue it safe."
 	r.Rule("R-C13-assert", "type assertions guarded by the matching tag test or by producer types", 40)
 	r.Rule("R-C13-index", "index/slice expressions discharged by range, guard, constant array or reviewed argument", 30)
-	r.Rule("R-C13-rec", "recursion consumes input or is guarded by a visited set", 2)
+	r.Rule("R-C13-rec", "recursion consumes input or is guarded by a visited set consulted for the very value handed to the recursive load", 2)
 	r.Rule("R-C13-result", "error ⇒ empty script; no explicit panic; non-empty error messages", 10)
 	r.Rule("R-C13-progress", "parser loops consume a token on every iteration or leave through an error", 10)
 	c13Assert(w, r)
